@@ -99,7 +99,7 @@ def check(run, prog, tier):
     # ---- C19-b
     cg = callgraph.CallGraph(prog)
     roots = {"timer thread": ["timer_thread_func"], "worker thread": ["worker_thread_proc"]}
-    backend_closure = cg.reachable_from(["main", "backend"])
+    backend_closure = cg.reachable_from(["main", "backend"], barriers={"timer_thread_func", "worker_thread_proc", "heartbeat_timer_callback", "console_worker_proc_posix"})
     glob = prog.globals()
     found = []
     for rname, rfs in roots.items():
@@ -145,6 +145,8 @@ def check(run, prog, tier):
         if gname and gname in glob:
             decl_t = glob[gname].get("t", typ)
         atomic = "atomic" in decl_t or "_Atomic" in decl_t
+        if gname and gname in glob and glob[gname].get("tls"):
+            continue  # thread-local storage: not shared
         inst = "shared:%s:%s" % (rname.replace(" ", "-"), what.replace(" ", ":"))
         run.ob("C19-b", inst, atomic, "%s (type `%s`) is written by the %s (%s) and accessed by the backend (%s)%s" % (what, decl_t, rname, f.name, ", ".join(readers[:4]), "" if atomic else " without atomics or a lock"),
                f.file, n.get("l"), f.name, what="%s is shared between the %s and the backend as a plain `%s`" % (what, rname, decl_t))
